@@ -152,7 +152,7 @@ def run(ctx):
             if k % 4 == 1:
                 # the envelope map has one more node: the interchange acknowledgement, at the position of the groups - in its usual place
                 # after the ISA, or after the last group
-                where = ['after-isa', 'before-iea'][(k // 4) % 2]
+                where = ['after-isa', 'before-iea', 'after-isa', 'between-groups'][(k // 4) % 4] if k != 1 else 'after-isa'
                 doc = gen_doc.add_ta1(doc, where)
                 case = dict(case, ta1=where)
                 ctx.count('docs:with-TA1:' + where)
